@@ -320,3 +320,97 @@ def make_stimulus(rng, d, ncycles, default_value=0):
     for _ in range(ncycles):
         inputs.append({w.name: boundary_value(rng, len(w)) for w in d.inputs})
     return regmap, memmap, inputs
+
+
+class AssertFired(Exception):
+    """raised by the rtl_assert wires that decorate() adds"""
+
+
+RAW_OPS = ['w', '~', '&', '|', '^', 'n', '+', '-', '*', 'x', 'c', 's', 'r']
+
+
+def decorate(rng, d, n_raw=3, n_dangling=2, n_assert=1):
+    """post-process a design built by make_design with what the '<<=' sugar never produces:
+      raw      nets added with Block.add_net whose destination is NARROWER than the natural result width
+               (legal: sanity_check_net only rejects wider destinations; documented semantics: truncate),
+               for every primitive including a register whose next-input is wider than the register;
+      dangling driven wires that nothing reads and that are not Outputs (read back through inspect);
+      asserts  rtl_assert on a 1-bit wire (the caller catches AssertFired and keeps stepping).
+    Consumes only `rng`, so make_design's stream is unchanged."""
+    block = d.block
+    src = [w for w in block.wirevector_set
+           if not isinstance(w, (pyrtl.Output, pyrtl.Const)) and len(w) >= 2]
+    src.sort(key=lambda w: w.name)
+    d.dangling = []
+    k = 0
+
+    def same_width(a):
+        c = [w for w in src if len(w) == len(a)]
+        return rng.choice(c)
+
+    def finish(dest, how):
+        if how == 'out':
+            o = pyrtl.Output(len(dest), 'rawout%d' % len(d.outputs))
+            o <<= dest
+            d.outputs.append(o)
+        else:
+            d.dangling.append(dest)
+
+    for _ in range(n_raw if src else 0):
+        op = rng.choice(RAW_OPS)
+        a = rng.choice(src)
+        k += 1
+        if op in 'w~':
+            args, nat, par = (a,), len(a), None
+        elif op in '&|^n':
+            args, nat, par = (a, same_width(a)), len(a), None
+        elif op in '+-':
+            args, nat, par = (a, same_width(a)), len(a) + 1, None
+        elif op == '*':
+            if len(a) > 66:
+                continue
+            args, nat, par = (a, same_width(a)), 2 * len(a), None
+        elif op == 'x':
+            s = rng.choice(src)
+            s1 = s[rng.randrange(len(s))]
+            args, nat, par = (s1, a, same_width(a)), len(a), None
+        elif op == 'c':
+            b = rng.choice(src)
+            if len(a) + len(b) > 200:
+                continue
+            args, nat, par = (a, b), len(a) + len(b), None
+        elif op == 's':
+            par = tuple(rng.randrange(len(a)) for _ in range(rng.randint(2, 6)))
+            args, nat = (a,), len(par)
+        else:   # 'r': a register narrower than its next-input, driven by a raw net
+            dw = rng.randint(1, len(a) - 1)
+            rv = boundary_value(rng, dw) if rng.random() < 0.5 else None
+            r = pyrtl.Register(dw, 'rawreg%d' % k, reset_value=rv)
+            block.add_net(pyrtl.LogicNet('r', None, (a,), (r,)))
+            d.regs.append(r)
+            d.ops.append('raw-r')
+            finish(r, 'out')
+            continue
+        dw = rng.randint(1, nat - 1)
+        dest = pyrtl.WireVector(dw, 'raw%d' % k)
+        block.add_net(pyrtl.LogicNet(op, par, args, (dest,)))
+        d.ops.append('raw-' + op)
+        finish(dest, 'out' if rng.random() < 0.7 else 'dangling')
+
+    for _ in range(n_dangling if src else 0):
+        a = rng.choice(src)
+        k += 1
+        dest = pyrtl.WireVector(len(a), 'dangle%d' % k)
+        dest <<= ~a if rng.random() < 0.5 else a
+        d.dangling.append(dest)
+        d.ops.append('dangling')
+
+    d.asserts = []
+    for _ in range(n_assert if src else 0):
+        a = rng.choice(src)
+        k += 1
+        cond = pyrtl.WireVector(1, 'acond%d' % k)
+        cond <<= a[rng.randrange(len(a))] | a[rng.randrange(len(a))]
+        d.asserts.append(pyrtl.rtl_assert(cond, AssertFired('acond%d' % k), block=block))
+        d.ops.append('rtl_assert')
+    return d
